@@ -221,6 +221,36 @@ def _task_interleave(args):
                                      "detail": f"[PGN {pgn} {defn.id}, {vname}, counters {seq_a}/{seq_b}, frames alternating, through {name}] the {which} message "
                                                f"differs from its pre-assembled delivery: {str(got['a'] if got['a'] != ref_a else got['b'])[:80]}",
                                      "case": {"pgn": pgn, "definition": defn.id, "interleave": vname, "seed": seed}})
+        # an earlier transmission on the same stream that was cut short (its last frames lost), then a complete message with
+        # another counter: delivered frame by frame it still equals its pre-assembled delivery
+        prio, src, dst = 3, 35, 255 if not pdu1 else 10
+        ref_b = attempt(whole_renderings(prio, pgn, src, dst, pay_b)["actisense"], NMEA2000Decoder())
+        fa, fb = wire.fast_frames(1, pay_a, None), wire.fast_frames(2, pay_b, None)
+        if len(fa) >= 2:
+            for keep in sorted({1, len(fa) // 2, len(fa) - 1}):
+                if not 1 <= keep < len(fa):
+                    continue
+                for name in ("ebyte", "usb", "yd_R", "plain_dash"):
+                    d = NMEA2000Decoder()
+                    for fr in fa[:keep]:
+                        attempt(single_renderings(prio, pgn, src, dst, fr)[name], d)
+                    last, early = None, False
+                    for i, fr in enumerate(fb):
+                        last = attempt(single_renderings(prio, pgn, src, dst, fr)[name], d)
+                        st["decodes"] += 1
+                        if last is not None and i < len(fb) - 1:
+                            early = True
+                    st["frames"] += 1
+                    st["nontrivial"] += 1
+                    if early or last != ref_b:
+                        if len(vios) < 40:
+                            vios.append({"kind": "formats_disagree", "facts": {"definition": defn.id, "mechanism": "after_truncated_transmission"},
+                                         "signature": f"trunc:{pgn}:{defn.id}:{name}",
+                                         "detail": f"[PGN {pgn} {defn.id}, the first {keep} of {len(fa)} frames of an earlier message, then a complete message with another counter, through {name}] "
+                                                   f"{'a message was returned before the last frame' if early else 'the message differs from its pre-assembled delivery: ' + str(last)[:80]}",
+                                         "case": {"pgn": pgn, "definition": defn.id, "interleave": "truncated", "seed": seed}})
+                    else:
+                        st["agree_decoded"] += 1
     return st, vios, None
 
 
